@@ -414,6 +414,10 @@ theorem grid_rm' (q : Nat) : Grid (rm q) := by
   · simp only [rm, hL, if_true]; exact Or.inl hL
   · exact grid_rm q hL
 
+/- lets the elaborator evaluate the literals `2^1074`, `2^2098` (bignum arithmetic) instead of printing a
+   notice that it left them unevaluated; the proofs below treat them symbolically either way -/
+set_option exponentiation.threshold 4096
+
 theorem S_eq : F64.S = 2 ^ 1074 := rfl
 theorem OVF_eq : F64.OVF = 2 ^ 2098 := rfl
 
